@@ -25,7 +25,7 @@ inductive Var
   | argsGet | argsPost | argsPath | args | argsNames | argsGetNames | argsPostNames
   | reqHeaders | reqHeadersNames | tx | matchedVar | matchedVarName | matchedVars | matchedVarsNames
   | unknown
-deriving Repr, DecidableEq, BEq
+deriving Repr, DecidableEq
 
 def Var.name : Var → Bytes
   | .argsGet => Bytes.ofString "ARGS_GET" | .argsPost => Bytes.ofString "ARGS_POST"
@@ -49,6 +49,13 @@ structure CMap where
 deriving Repr, DecidableEq
 
 def lower (k : Bytes) : Bytes := k.map asciiLower
+
+/-- decimal digits, most significant first (strconv.Itoa); fuel n+1 always suffices -/
+def natDigitsAux : Nat → Nat → Bytes
+  | 0, _ => []
+  | f + 1, n => if n < 10 then [UInt8.ofNat (48 + n)] else natDigitsAux f (n / 10) ++ [UInt8.ofNat (48 + n % 10)]
+
+def natToBytes (n : Nat) : Bytes := natDigitsAux (n + 1) n
 
 def CMap.lookup (m : CMap) (fk : Bytes) : List KV :=
   match m.buckets.find? (·.1 == fk) with
@@ -184,7 +191,7 @@ deriving Repr, DecidableEq
 
 /-- waf.go:258-262 newTransaction: TX.0 … TX.10 start as "" (capture slots) -/
 def freshTxc : CMap :=
-  (List.range 11).foldl (fun m i => m.set1 (toString i).toUTF8.toList []) {}
+  (List.range 11).foldl (fun m i => m.set1 (natToBytes i) []) {}
 
 /-- operators and transformations are parameters of the engine -/
 structure Env where
@@ -258,7 +265,6 @@ def compiledKey (v : Var) (key : Bytes) : Bytes := if argsFamily v then key else
 def excluded (excs : List Bytes) (md : MD) : Bool :=
   excs.any fun ex => ex.isEmpty || lower ex == lower md.key
 
-def natToBytes (n : Nat) : Bytes := (toString n).toUTF8.toList
 
 /-- `ecol`: the run-time target exclusions of this rule id, read once per link
     (rule.go:232 `ecol := tx.ruleRemoveTargetByID[rid]`, before the loop over targets) -/
@@ -325,7 +331,7 @@ def atoiOpt (s : Bytes) : Option Int :=
       if n > 9223372036854775807 then none
       else some (if c == 0x2d then -n else n)
 
-def intToBytes (i : Int) : Bytes := (toString i).toUTF8.toList
+def intToBytes (i : Int) : Bytes := if i < 0 then 0x2d :: natToBytes i.natAbs else natToBytes i.toNat
 
 def hasPrefixB (p s : Bytes) : Bool := p.isPrefixOf s
 
